@@ -38,6 +38,20 @@ func runC04(c *Ctx) {
 	ruleSendOnce(c, p, roles, "C04.send-once")
 	ruleWaiterWoken(c, p, roles, "C04.waiter-woken")
 	ruleDeadlineKind(c, p, roles, "C04.deadline-kind")
+	if hg := handshakeGoroutine(c, p); hg != nil {
+		ruleAddendum(c, p, "C04.addendum", hg, nil, true)
+	}
+	c.R.Rule("C04.errors", "E6 (as C07.errors) restricted to package ch: a failed read or decode in the middle of a packet reaches only failure exits - swallowing it leaves the rest of the packet in the stream, where it is read as packet codes")
+	{
+		var fns []*ssa.Function
+		for _, fn := range p.Funcs() {
+			if pkgOf(fn) != nil && pkgOf(fn).Path() == core.PkgCh && !isServerSide(fn) {
+				fns = append(fns, fn)
+			}
+		}
+		nE := runErrDisc(c, p, fns, errDiscOpts{Rule: "C04.errors", Class: readerClass(p), Exempt: isDoReceiverPacket})
+		c.R.Floor("C04.errors", cfg, nE, 12)
+	}
 	ruleFlushOwner(c, p, "C04.flush-owner")
 	_ = cfg
 	c.R.Assumptions = append(c.R.Assumptions,
